@@ -43,6 +43,9 @@ func newSwitch(key crypto.PrivKey) (*p2p.Switch, error) {
 	})
 	cfg := config.DefaultP2PConfig()
 	cfg.ListenAddress = ""
+	// deadlines of the code under test: far beyond anything a stalled machine produces
+	cfg.HandshakeTimeout = 30 * time.Minute
+	cfg.DialTimeout = 2 * time.Minute
 	return p2p.NewP2pManager(log.NewNopLogger(), key, cfg, peerNodeInfo("switch-under-test"), nil, dbm.NewMemDB())
 }
 
@@ -104,7 +107,7 @@ func peerReplay(w *hsWorld, g *mbt.Graph, seq []int) (steps int, mm *mismatch) {
 		return 0, &mismatch{kind: "infra", desc: "the switch did not dial: " + err.Error()}
 	}
 	defer c.Close()
-	c.SetDeadline(time.Now().Add(2 * wait))
+	c.SetDeadline(time.Now().Add(10 * time.Minute))
 	p := &hsParty{name: "T", att: c, done: make(chan hsResult, 1)}
 	s := &hsSession{w: w, parties: map[string]*hsParty{"T": p}, attEph: map[string]*[32]byte{}}
 	s.remOf = map[string]*[32]byte{}
@@ -172,6 +175,9 @@ func peerReplay(w *hsWorld, g *mbt.Graph, seq []int) (steps int, mm *mismatch) {
 			writeFramed(c, bz, w.v.Cut)
 			// a switch that accepts the handshake goes on to write its NodeInfo
 			_, rerr := readFrame(c)
+			if ne, ok := rerr.(net.Error); ok && ne.Timeout() {
+				return steps, &mismatch{kind: "infra", desc: "scripted peer: " + rerr.Error(), step: i}
+			}
 			if a.Res == "ok" {
 				authKey = a.Key
 				if rerr != nil {
